@@ -69,6 +69,9 @@ func runC08(c *Ctx, r *Report) {
 	if c.thorough() {
 		c08r3(c, r)
 	}
+	c08r8(c, r)
+	c08r9(c, r)
+	c08r10(c, r)
 	// ---------------- R4 ----------------
 	r.rule("C08-R4", "A (path conditions)", "P1",
 		"in Matcher.Loop, eventBox.Set(EvtSearchFin, ..) is reached only when the `cancelled` result of scan is false; every return of scan whose second result can be true returns a nil merger",
@@ -146,123 +149,9 @@ func runC08(c *Ctx, r *Report) {
 		r.floor("returns of scan", nr, 3)
 	}
 
-	// ---------------- R5 ----------------
-	r.rule("C08-R5", "A (path conditions)", "P1",
-		"every read of transformed.tokens (the per-item token cache) happens under an equality test of transformed.revision",
-		"after change-nth / reload, matching and highlighting use tokens of the old field expression")
-	fTok := l.Field("fzf", "transformed", "tokens")
-	fRev := l.Field("fzf", "transformed", "revision")
-	if fTok == nil || fRev == nil {
-		r.unest("anchors", token.NoPos, nil, "anchors transformed.tokens / transformed.revision", "cannot resolve")
-	} else {
-		n := 0
-		readsRev := func(v ssa.Value) bool {
-			for x := range backwardSlice(v, nil, nil) {
-				if f, _ := fieldOf(x); f == fRev {
-					return true
-				}
-			}
-			return false
-		}
-		for _, f := range l.AllFuncs() {
-			var pc *PathConds
-			eachInstr(f, func(in ssa.Instruction) {
-				var fld *types.Var
-				switch x := in.(type) {
-				case *ssa.UnOp:
-					if x.Op == token.MUL {
-						fld, _ = fieldOf(x.X)
-					}
-				case *ssa.Field:
-					fld, _ = fieldOf(x)
-				}
-				if fld != fTok {
-					return
-				}
-				n++
-				if pc == nil {
-					pc = pathConds(f)
-				}
-				holds, _ := pc.Implies(in.Block(), func(lits []Lit) bool {
-					return hasLit(lits, func(a ssa.Value, v bool) bool {
-						b, ok := a.(*ssa.BinOp)
-						if !ok {
-							return false
-						}
-						if !((b.Op == token.EQL && v) || (b.Op == token.NEQ && !v)) {
-							return false
-						}
-						return readsRev(b.X) || readsRev(b.Y)
-					})
-				})
-				r.check(holds, relName(f)+":read transformed.tokens", in.Pos(), f, "cached tokens are read under a revision equality test", "read without `transformed.revision == <current revision>` on the path")
-			})
-		}
-		r.floor("reads of transformed.tokens", n, 2)
-	}
+	c08r5(c, r)
 
-	// ---------------- R6 ----------------
-	r.rule("C08-R6", "F (alias) + B", "P1",
-		"slices obtained from Pattern.Match / ChunkCache.Lookup / ChunkCache.Search (they are the cached lists) are never passed to sort.Sort/sort.Stable, never stored into by index and never the first argument of append",
-		"a cached per-chunk list gets reordered/overwritten; later searches (e.g. after toggle-sort) publish it as is")
-	{
-		srcs := map[*ssa.Function]bool{}
-		for _, n := range []string{"(*Pattern).Match", "(*ChunkCache).Lookup", "(*ChunkCache).Search"} {
-			if f := l.Fn("fzf", n); f != nil {
-				srcs[f] = true
-			} else {
-				r.unest("anchors:"+n, token.NoPos, nil, "anchor "+n, "cannot resolve")
-			}
-		}
-		nsrc := 0
-		for _, f := range l.AllFuncs() {
-			eachInstr(f, func(in ssa.Instruction) {
-				call, ok := in.(*ssa.Call)
-				if !ok || !srcs[call.Common().StaticCallee()] {
-					return
-				}
-				nsrc++
-				// aliases of the result within f (and cells it is stored to)
-				al := forwardAliases(f, call)
-				bad := false
-				for v := range al {
-					refs := v.Referrers()
-					if refs == nil {
-						continue
-					}
-					for _, ref := range *refs {
-						switch x := ref.(type) {
-						case *ssa.Call:
-							nm := calleeName(x.Common())
-							if (nm == "sort.Sort" || nm == "sort.Stable" || nm == "sort.Slice" || nm == "sort.SliceStable") && len(x.Call.Args) > 0 && al[x.Call.Args[0]] {
-								bad = true
-								r.bad(relName(f)+":sort cached list", x.Pos(), f, "result of "+relName(call.Common().StaticCallee())+" is sorted in place", "the slice is the list stored in the chunk cache")
-							}
-							if nm == "builtin.append" && x.Call.Args[0] == v {
-								bad = true
-								r.bad(relName(f)+":append onto cached list", x.Pos(), f, "result of "+relName(call.Common().StaticCallee())+" is the destination of append", "may write into the cached list's backing array")
-							}
-							if nm == "builtin.copy" && x.Call.Args[0] == v {
-								bad = true
-								r.bad(relName(f)+":copy into cached list", x.Pos(), f, "result of "+relName(call.Common().StaticCallee())+" is the destination of copy", "overwrites the cached list")
-							}
-						case *ssa.IndexAddr:
-							for _, r2 := range *x.Referrers() {
-								if st, ok := r2.(*ssa.Store); ok && st.Addr == x {
-									bad = true
-									r.bad(relName(f)+":store into cached list", st.Pos(), f, "element store into result of "+relName(call.Common().StaticCallee()), "overwrites the cached list")
-								}
-							}
-						}
-					}
-				}
-				if !bad {
-					r.ok(relName(f)+":"+relName(call.Common().StaticCallee())+" result read-only", call.Pos(), f, "result of "+relName(call.Common().StaticCallee())+" is only read / copied from")
-				}
-			})
-		}
-		r.floor("call sites returning cached lists", nsrc, 3)
-	}
+	c08r6(c, r)
 
 	// ---------------- R7 ----------------
 	r.rule("C08-R7", "A (path conditions)", "P1",
@@ -927,4 +816,132 @@ func c08r3(c *Ctx, r *Report) {
 		})
 	}
 	r.floor("semantic-change sites in the coordinator (nth store, denylist update)", n, 2)
+}
+
+// c08r6: cached result lists are read-only (shared with C04).
+func c08r6(c *Ctx, r *Report) {
+	l := c.L
+	// ---------------- R6 ----------------
+	r.rule("C08-R6", "F (alias) + B", "P1",
+		"slices obtained from Pattern.Match / ChunkCache.Lookup / ChunkCache.Search (they are the cached lists) are never passed to sort.Sort/sort.Stable, never stored into by index and never the first argument of append",
+		"a cached per-chunk list gets reordered/overwritten; later searches (e.g. after toggle-sort) publish it as is")
+	{
+		srcs := map[*ssa.Function]bool{}
+		for _, n := range []string{"(*Pattern).Match", "(*ChunkCache).Lookup", "(*ChunkCache).Search"} {
+			if f := l.Fn("fzf", n); f != nil {
+				srcs[f] = true
+			} else {
+				r.unest("anchors:"+n, token.NoPos, nil, "anchor "+n, "cannot resolve")
+			}
+		}
+		nsrc := 0
+		for _, f := range l.AllFuncs() {
+			eachInstr(f, func(in ssa.Instruction) {
+				call, ok := in.(*ssa.Call)
+				if !ok || !srcs[call.Common().StaticCallee()] {
+					return
+				}
+				nsrc++
+				// aliases of the result within f (and cells it is stored to)
+				al := forwardAliases(f, call)
+				bad := false
+				for v := range al {
+					refs := v.Referrers()
+					if refs == nil {
+						continue
+					}
+					for _, ref := range *refs {
+						switch x := ref.(type) {
+						case *ssa.Call:
+							nm := calleeName(x.Common())
+							if (nm == "sort.Sort" || nm == "sort.Stable" || nm == "sort.Slice" || nm == "sort.SliceStable") && len(x.Call.Args) > 0 && al[x.Call.Args[0]] {
+								bad = true
+								r.bad(relName(f)+":sort cached list", x.Pos(), f, "result of "+relName(call.Common().StaticCallee())+" is sorted in place", "the slice is the list stored in the chunk cache")
+							}
+							if nm == "builtin.append" && x.Call.Args[0] == v {
+								bad = true
+								r.bad(relName(f)+":append onto cached list", x.Pos(), f, "result of "+relName(call.Common().StaticCallee())+" is the destination of append", "may write into the cached list's backing array")
+							}
+							if nm == "builtin.copy" && x.Call.Args[0] == v {
+								bad = true
+								r.bad(relName(f)+":copy into cached list", x.Pos(), f, "result of "+relName(call.Common().StaticCallee())+" is the destination of copy", "overwrites the cached list")
+							}
+						case *ssa.IndexAddr:
+							for _, r2 := range *x.Referrers() {
+								if st, ok := r2.(*ssa.Store); ok && st.Addr == x {
+									bad = true
+									r.bad(relName(f)+":store into cached list", st.Pos(), f, "element store into result of "+relName(call.Common().StaticCallee()), "overwrites the cached list")
+								}
+							}
+						}
+					}
+				}
+				if !bad {
+					r.ok(relName(f)+":"+relName(call.Common().StaticCallee())+" result read-only", call.Pos(), f, "result of "+relName(call.Common().StaticCallee())+" is only read / copied from")
+				}
+			})
+		}
+		r.floor("call sites returning cached lists", nsrc, 3)
+	}
+
+}
+
+// c08r5: token cache is revision-checked (shared with C10 and C05).
+func c08r5(c *Ctx, r *Report) {
+	l := c.L
+	// ---------------- R5 ----------------
+	r.rule("C08-R5", "A (path conditions)", "P1",
+		"every read of transformed.tokens (the per-item token cache) happens under an equality test of transformed.revision",
+		"after change-nth / reload, matching and highlighting use tokens of the old field expression")
+	fTok := l.Field("fzf", "transformed", "tokens")
+	fRev := l.Field("fzf", "transformed", "revision")
+	if fTok == nil || fRev == nil {
+		r.unest("anchors", token.NoPos, nil, "anchors transformed.tokens / transformed.revision", "cannot resolve")
+	} else {
+		n := 0
+		readsRev := func(v ssa.Value) bool {
+			for x := range backwardSlice(v, nil, nil) {
+				if f, _ := fieldOf(x); f == fRev {
+					return true
+				}
+			}
+			return false
+		}
+		for _, f := range l.AllFuncs() {
+			var pc *PathConds
+			eachInstr(f, func(in ssa.Instruction) {
+				var fld *types.Var
+				switch x := in.(type) {
+				case *ssa.UnOp:
+					if x.Op == token.MUL {
+						fld, _ = fieldOf(x.X)
+					}
+				case *ssa.Field:
+					fld, _ = fieldOf(x)
+				}
+				if fld != fTok {
+					return
+				}
+				n++
+				if pc == nil {
+					pc = pathConds(f)
+				}
+				holds, _ := pc.Implies(in.Block(), func(lits []Lit) bool {
+					return hasLit(lits, func(a ssa.Value, v bool) bool {
+						b, ok := a.(*ssa.BinOp)
+						if !ok {
+							return false
+						}
+						if !((b.Op == token.EQL && v) || (b.Op == token.NEQ && !v)) {
+							return false
+						}
+						return readsRev(b.X) || readsRev(b.Y)
+					})
+				})
+				r.check(holds, relName(f)+":read transformed.tokens", in.Pos(), f, "cached tokens are read under a revision equality test", "read without `transformed.revision == <current revision>` on the path")
+			})
+		}
+		r.floor("reads of transformed.tokens", n, 2)
+	}
+
 }
